@@ -314,7 +314,7 @@ PROBES = {
     "setchildren_readonly": [{"op": "setchildren", "d": "d1", "via": "ro", "items": [{"name": "a", "child": F1, "md": "none"}], "ow": "true"}],
     "setchildren_immutable": [
         {"op": "mkdir", "d": "d1", "via": "rw", "name": "a", "kids": [], "ow": "true", "mutable": False, "md": "keep"},
-        {"op": "setchildren", "d": "n1", "via": "rw", "items": [{"name": "a", "child": F1, "md": "none"}], "ow": "true"}],
+        {"op": "setchildren", "d": "$last", "via": "rw", "items": [{"name": "a", "child": F1, "md": "none"}], "ow": "true"}],
     "getmd_missing": [{"op": "getmd", "d": "d1", "via": "rw", "name": "a"}],
     "path_through_file": [
         {"op": "add", "d": "d1", "via": "rw", "name": "a", "child": F1, "md": "keep", "ow": "true"},
@@ -364,6 +364,8 @@ def run_ops(args, inp, rng):
                                 break
                     else:
                         o = gen.more(obs)
+                if o.get("d") == "$last":       # probes: the directory the previous call handed back
+                    o["d"] = events[-1]["out"]["id"]
                 r = do_more(w, o)
                 obs = w.observe()
                 if gen is not None:
